@@ -352,6 +352,11 @@ func (r *Run) RunSecondaryBuild() {
 	case ExitInconclusive:
 		r.Inconclusive("the linux/386 variant was inconclusive: " + lastLines(string(out), 2))
 	default:
+		if strings.Contains(string(out), "out of memory") || strings.Contains(string(out), "cannot allocate memory") {
+			// the harness itself exhausted the 32-bit address space or the machine's memory: says nothing about the property
+			r.Inconclusive("the linux/386 variant ran out of memory: " + lastLines(string(out), 1))
+			break
+		}
 		r.Violation("on-linux-386-build:crash", "the check ended abnormally as a linux/386 binary: "+lastLines(string(out), 6), map[string]any{"check": r.ID, "secondary_build": "linux/386"})
 	}
 	if b, err := os.ReadFile(filepath.Join(BinDir(), r.ID+"-sub-386.json")); err == nil {
